@@ -99,6 +99,20 @@ func buildPool() {
 		add("zcol\tEQU\t5\nzcol2\tEQU\tzcol*2\n\tMOV AX,zcol\n\tDB zcol2\n", "collide-equ")
 		add("\tDB 1,2,3\nzcol:\n\tDW zcol\n\tJMP zcol\nzcol2:\n\tMOV AX,zcol2\n", "collide-label")
 		add("[BITS 32]\n\tJMP zcol\n\tDB 9\nzcol:\n\tDD zcol\n\tMOV EAX,zcol2\nzcol2:\n", "collide-label32")
+		// two branches that need widening in the same round, followed by padding that absorbs the bytes one of them
+		// gains (if the order in which they are widened mattered, so would the image)
+		for _, al := range []int{4, 16} {
+			add(fmt.Sprintf("\tJE zx1\n\tJNE zx2\n\tRESB 124\nzx1:\n\tNOP\nzx2:\n\tALIGNB %d\nzx3:\n\tDW zx3,zx1,zx2\n\tRESB 0x200-$\n\tDB 0x55\n", al), fmt.Sprintf("two-widen-alignb-%d", al))
+			add(fmt.Sprintf("\tJMP zy1\n\tDB 1\n\tJC zy2\n\tRESB 125\nzy1:\nzy2:\n\tALIGNB %d\n\tDW $\n", al), fmt.Sprintf("two-widen-same-target-%d", al))
+		}
+		// a forward branch over an ALIGNB and a backward branch behind it, both out of reach by a byte or two: widening
+		// the first moves the second's target without moving the second (the padding absorbs the byte), so an
+		// assembler that widens "some" of the reported branches per round gives an image that depends on which
+		for _, a := range []int{9, 10, 11} {
+			for _, b := range []int{112, 113, 114} {
+				add(fmt.Sprintf("\tORG 0\n\tJMP zly\nzt:\n\tRESB %d\n\tALIGNB 16\n\tRESB %d\n\tJMP zt\nzly:\n\tHLT\n\tDW zt,zly\n", a, b), fmt.Sprintf("cross-widen-%d-%d", a, b))
+			}
+		}
 		// tiny programs: one catalogue statement, a label after it, both modes
 		ntiny := 20
 		if tier() == "thorough" {
